@@ -169,6 +169,14 @@ fn build<F: VF>(v: &Variant) -> Built<F> {
     Built { data, tables, xs, outs, y, prod }
 }
 
+/// Common data of a narrow-configuration circuit (12 wires, 6 looking slots, 4 table slots, two
+/// partial SLDC polynomials) with lookup tables of the given sizes and one lookup into each; used
+/// by the in-circuit twin obligations of the recursion family.
+pub fn common_with_lookups<F: VF>(table_sizes: &[usize]) -> CommonCircuitData<F, 2> {
+    let v = Variant { name: "twin", shape: Shape::Narrow, tables: table_sizes.iter().map(|n| Size::N(*n)).collect(), lookups: (0..table_sizes.len()).map(|t| (t, 0u16)).collect() };
+    build::<F>(&v).data.common
+}
+
 fn describe<F: VF>(v: &Variant, bt: &Built<F>) -> String {
     let cd = &bt.data.common;
     format!(
